@@ -193,11 +193,11 @@ Qed.
 
 Definition parts_ok (ld : loaded) : Prop :=
   (forall t, inv Q (expand LNewEmbed (S (List.length (top_tspecs (ld_files ld)))) (top_tspecs (ld_files ld)) t)) /\
-  map_parts_ok ld.
+  map_parts_ok ld /\ (forall fl, inv Q (confirm_types fl ld)).
 
 Lemma make_data_g i fl ld T : parts_ok ld -> inv Q (make_data i fl ld T).
 Proof.
-  intros [Hn Hm]. unfold make_data. destruct (fl_sub fl);
+  intros (Hn & Hm & _). unfold make_data. destruct (fl_sub fl);
     [now apply new_make_g|apply enum_make_g|apply rest_make_g|now apply map_make_g].
 Qed.
 
@@ -209,16 +209,9 @@ Proof.
   repeat (first [apply IH | inv_step]).
 Qed.
 
-Lemma confirm_types_g fl ld : inv Q (confirm_types fl ld).
-Proof.
-  unfold confirm_types. destruct (fl_specified fl); [|exact I].
-  apply inv_bind; [|intros; exact I].
-  apply inv_each. intros T _. inv_auto.
-Qed.
-
 Lemma generate_g i fl ld : parts_ok ld -> inv Q (generate i fl ld).
 Proof.
-  intros Hp. unfold generate. apply inv_bind; [apply confirm_types_g|intros [types fmap] _].
+  intros Hp. unfold generate. apply inv_bind; [apply Hp|intros [types fmap] _].
   apply inv_bind; [now apply gen_loop_g|intros [sep merged] _].
   apply inv_bind; [inv_auto|intros; exact I].
 Qed.
@@ -273,9 +266,18 @@ Proof.
                   end]).
 Qed.
 
+Lemma confirm_types_q fl ld : inv fatal_or_crash (confirm_types fl ld).
+Proof.
+  unfold confirm_types. destruct (fl_specified fl).
+  - apply inv_bind; [|intros; exact I].
+    apply inv_each. intros T _. destruct (fl_file fl =? ""); [exact I|]. apply inv_guard. reflexivity.
+  - destruct (_ && _); exact I.
+Qed.
+
 Lemma parts_ok_q ld : parts_ok fatal_or_crash ld.
 Proof.
-  repeat split; intros; first [apply expand_q | apply map_ctors_q | apply map_accessors_q | apply map_manual_q].
+  repeat split; intros;
+    first [apply expand_q | apply map_ctors_q | apply map_accessors_q | apply map_manual_q | apply confirm_types_q].
 Qed.
 
 (* ------------------------------ pass 2: no crash on well-formed packages *)
@@ -395,15 +397,29 @@ Proof.
     destruct r; [exact I|]. destruct (pa_names recv); [congruence|apply Hrest].
 Qed.
 
+(* every Go file of the package has a package clause *)
+Definition has_pkg_clauses (files : list file) : bool := forallb (fun f => negb (f_pkg f =? "")) files.
+
+Lemma confirm_types_nc fl ld : has_pkg_clauses (ld_files ld) = true -> inv no_crash (confirm_types fl ld).
+Proof.
+  intros Hc. unfold confirm_types. destruct (fl_specified fl).
+  - apply inv_bind; [|intros; exact I].
+    apply inv_each. intros T _. destruct (fl_file fl =? ""); [exact I|]. apply inv_guard. exact I.
+  - assert (E : existsb (fun f => f_pkg f =? "") (ld_files ld) = false).
+    { unfold has_pkg_clauses in Hc. induction (ld_files ld) as [|f r IH]; [reflexivity|].
+      cbn in *. apply andb_prop in Hc as [H1 H2]. rewrite (IH H2). destruct (f_pkg f =? ""); [discriminate|reflexivity]. }
+    rewrite E, andb_false_r. exact I.
+Qed.
+
 (* the guard of the classification theorem, on what LoadPackage returned *)
 Definition loaded_wf (ld : loaded) : Prop :=
   embedding_wf (top_tspecs (ld_files ld)) /\ embedding_wf (top_tspecs (ld_dest ld)) /\
-  safe_funcs (ld_files ld) = true /\ safe_funcs (ld_dest ld) = true.
+  safe_funcs (ld_files ld) = true /\ safe_funcs (ld_dest ld) = true /\ has_pkg_clauses (ld_files ld) = true.
 
 Lemma parts_ok_nc ld : loaded_wf ld -> parts_ok no_crash ld.
 Proof.
-  intros (W1 & W2 & S1 & S2). repeat split; intros;
-    first [ now apply expand_wf | now apply map_ctors_nc | now apply map_accessors_nc | idtac ].
+  intros (W1 & W2 & S1 & S2 & C). repeat split; intros;
+    first [ now apply expand_wf | now apply map_ctors_nc | now apply map_accessors_nc | now apply confirm_types_nc | idtac ].
   apply map_manual_nc. intros g f Hin. exact (safe_in _ g f S1 Hin).
 Qed.
 
@@ -568,7 +584,7 @@ Qed.
 
 (* the guard of the classification theorem on the input *)
 Definition input_wf (i : input) : Prop :=
-  embedding_wf (top_tspecs (i_files i)) /\ safe_funcs (i_files i) = true /\
+  embedding_wf (top_tspecs (i_files i)) /\ safe_funcs (i_files i) = true /\ has_pkg_clauses (i_files i) = true /\
   forall sp n fs, In (sp, DestPkg n fs) (i_dests i) ->
                   embedding_wf (top_tspecs fs) /\ safe_funcs fs = true.
 
@@ -587,10 +603,11 @@ Qed.
 
 Lemma load_package_wf i fl ld : input_wf i -> load_package i fl = Ok ld -> loaded_wf ld.
 Proof.
-  intros (W & S & D). unfold load_package. cbv zeta.
-  assert (Hfiles : embedding_wf (top_tspecs (files_of i (fl_dir fl))) /\ safe_funcs (files_of i (fl_dir fl)) = true).
-  { unfold files_of. destruct (is_pkgdir i (fl_dir fl)); [auto|split; [apply embedding_wf_nil|reflexivity]]. }
-  destruct Hfiles as [Wf Sf].
+  intros (W & S & C & D). unfold load_package. cbv zeta.
+  assert (Hfiles : embedding_wf (top_tspecs (files_of i (fl_dir fl))) /\ safe_funcs (files_of i (fl_dir fl)) = true /\
+                   has_pkg_clauses (files_of i (fl_dir fl)) = true).
+  { unfold files_of. destruct (is_pkgdir i (fl_dir fl)); [auto|split; [apply embedding_wf_nil|split; reflexivity]]. }
+  destruct Hfiles as (Wf & Sf & Cf).
   destruct (match fl_sub fl with
             | CMap => _
             | _ => _
@@ -760,6 +777,15 @@ Definition w_map_setter : input :=
 Lemma map_setter_panics : fst (run id_order no_fault w_map_setter) = Panic PSetterNoParam.
 Proof. vm_compute. reflexivity. Qed.
 
+(* K_testfile_no_package_clause: an empty .go file in the directory and -file *)
+Definition w_no_clause : input :=
+  mkinput ["new"; "-file=a.go"]
+    [gofile "a.go" [DType [strct "A" [fld "x" (TId "int")]]];
+     {| f_name := "empty.go"; f_pkg := ""; f_imports_dest := []; f_decls := [] |}] [] [].
+Lemma no_clause_panics :
+  fst (run id_order no_fault w_no_clause) = Panic PTestFileNoPos /\ has_pkg_clauses (i_files w_no_clause) = false.
+Proof. vm_compute. auto. Qed.
+
 (* K_clean_unreadable_after_write: a directory named like an output, all-in-one mode *)
 Definition two_structs : list decl :=
   [DComment "//go:generate shoot new -type=*"; DType [strct "A" [fld "x" (TId "int")]]; DType [strct "B" [fld "y" (TId "int")]]].
@@ -837,7 +863,7 @@ Qed.
 
 Lemma ex_input_wf args : input_wf (ex_input args).
 Proof.
-  split; [exact ex_wf|]. split; [reflexivity|]. intros sp n fs [].
+  split; [exact ex_wf|]. split; [reflexivity|]. split; [reflexivity|]. intros sp n fs [].
 Qed.
 
 Lemma ex_runs :
